@@ -1,2 +1,36 @@
 (* Proofs for C01. *)
-From WI Require Import Lib.Base Lib.Info Model.Safety.
+From WI Require Import Lib.Base Lib.Info Model.Dispatch Model.Safety Proofs.Dispatch.
+From WI Require gen.Scan.
+
+Lemma sites_classified_now : sites_classified gen.Scan.panic_sites = true.
+Proof. vm_compute. reflexivity. Qed.
+
+Lemma class_used_now : class_used gen.Scan.panic_sites = true.
+Proof. vm_compute. reflexivity. Qed.
+
+(* the dispatcher propagates no panic of its own: if no candidate parser can panic, Inspect cannot *)
+Lemma first_success_no_panic : forall parse ps data,
+  (forall p e, parse p data <> Panic e) -> forall e, first_success parse ps data <> Panic e.
+Proof.
+  intros parse ps data H. induction ps as [|p ps IH]; intros e; cbn [first_success]; [discriminate|].
+  destruct (parse p data) eqn:E; [discriminate|apply IH|]. exfalso. eapply H. exact E.
+Qed.
+
+Theorem inspect_no_panic : forall sniff parse name data,
+  (forall p e, parse p data <> Panic e) -> forall e, inspect sniff parse name data <> Panic e.
+Proof.
+  intros sniff parse name data H e.
+  destruct (inspect_first_success sniff parse table name data table_no_wildcards) as [ps [_ Hi]].
+  unfold inspect. rewrite Hi. now apply first_success_no_panic.
+Qed.
+
+(* Inspect always returns: an Ok description (possibly empty) when no parser panics *)
+Theorem inspect_returns : forall sniff parse name data,
+  (forall p e, parse p data <> Panic e) -> exists i, inspect sniff parse name data = Ok i.
+Proof.
+  intros sniff parse name data H.
+  destruct (inspect_first_success sniff parse table name data table_no_wildcards) as [ps [_ Hi]].
+  unfold inspect. rewrite Hi. clear Hi.
+  induction ps as [|p ps IH]; cbn [first_success]; [eauto|].
+  destruct (parse p data) eqn:E; [eauto|exact IH|]. exfalso. eapply H. exact E.
+Qed.
